@@ -577,6 +577,8 @@ class Engine:
                 break
             holder, sub = holder[:i], holder[i:] + sub
             hv = st.store.get(holder)
+            if hv is None and holder not in st.store:
+                hv = self.lazy.get(("", holder))
             if isinstance(hv, Agg):
                 key = (hv.base, sub)
                 if key not in self.lazy:
@@ -710,7 +712,7 @@ class Engine:
         st.pc = [c for i, c in enumerate(st.pc) if i in kept_idx]
 
     def is_param_sym(self, name):
-        m = re.match(r"in_(?:obj:in_)*_(\d+)(?!\d)", name)
+        m = re.match(r"(?:in_|obj:)+_(\d+)(?!\d)", name)
         return bool(m) and 1 <= int(m.group(1)) <= self.fn.nparams
 
     def run(self, entry="bb0", init=None):
@@ -947,6 +949,11 @@ class Engine:
             h = self.hooks.get("on_aggregate")
             if h:
                 h(self, st, m.group(1), dpath, site)
+            return True
+        # bare unit variant (printed without its path, e.g. `_106 = Revert`)
+        if re.fullmatch(r"[A-Z]\w*", rhs) and rhs in self.variants:
+            self.write_path(st, dpath, Agg("e_" + site))
+            st.store[dpath + "#disc"] = z3.BitVecVal(self.variants[rhs], 64)
             return True
         # enum variant:  Path::<..>::Variant(args)  or unit variant  Path::Variant
         m = re.match(r"([\w:<>'&\[\], ()@\-.{}#]*?)::(\w+)(?:\((.*)\))?$", rhs)
